@@ -9,6 +9,7 @@ package main
 // implement the expression budget.
 
 import (
+	"fmt"
 	"go/ast"
 	"go/parser"
 	"go/token"
@@ -65,13 +66,16 @@ func extractOptions(files map[string]*srcFile) (map[string]lval, []string) {
 
 	// c. defaults (of the function getOpts starts from, whatever its name), optionsFields
 	getOpts := findFn("getOpts", op)
-	skipsNil, defaultsFn := getOptsShape(getOpts)
+	skipsNil, defaultsFn, defaultsLit := getOptsShape(getOpts)
 	fields, haveFields := structFields(op, "options")
 	switch {
 	case getOpts == nil:
 		vals["defaults"] = lPairs([][2]string{{unk("func getOpts not found"), unk("missing")}})
+	case defaultsLit != nil:
+		// getOpts starts from a literal: `opts := options{...}`
+		vals["defaults"] = lPairs(defaultsOf(getOpts.sf, defaultsLit, fields))
 	case defaultsFn == "":
-		vals["defaults"] = lPairs([][2]string{{unk("getOpts does not start with `opts := F()`"), unk("missing")}})
+		vals["defaults"] = lPairs([][2]string{{unk("getOpts does not start with `opts := F()` or `opts := options{...}`"), unk("missing")}})
 	default:
 		vals["defaults"] = lPairs(readDefaults(defaultsFn, findFn(defaultsFn, op, bx, fl), fields))
 	}
@@ -88,7 +92,7 @@ func extractOptions(files map[string]*srcFile) (map[string]lval, []string) {
 	// e, f. CreateEvaluator
 	ce := findFn("CreateEvaluator", bx)
 	vals["createPlumbing"] = lPairs(createPlumbing(ce))
-	fwd, call, errFirst := createParse(ce)
+	fwd, call, errFirst := createParse(ce, []*srcFile{bx, op, fl})
 	vals["createForwardsMax"] = lStrs(fwd)
 	vals["createParseCall"] = lStrs(call)
 	vals["createErrCheckBeforeAssert"] = lBool(errFirst)
@@ -175,6 +179,14 @@ func readSetter(f *fnDecl) (fieldsSet, body []string) {
 	}
 	for _, st := range lit.Body.List {
 		as, ok := st.(*ast.AssignStmt)
+		// `tmp := T{...}` — a temporary built from a literal that does not mention o — sets nothing
+		if ok && as.Tok == token.DEFINE && len(as.Lhs) == 1 && len(as.Rhs) == 1 {
+			if _, isLit := as.Rhs[0].(*ast.CompositeLit); isLit && !mentions(as.Rhs[0], o) {
+				if id, isID := as.Lhs[0].(*ast.Ident); isID && id.Name != o {
+					continue
+				}
+			}
+		}
 		if !ok || as.Tok != token.ASSIGN || len(as.Lhs) != len(as.Rhs) {
 			fieldsSet = append(fieldsSet, unk(sf.oneLine(st)))
 			continue
@@ -208,6 +220,18 @@ func readSetter(f *fnDecl) (fieldsSet, body []string) {
 		fieldsSet = append(fieldsSet, names...)
 	}
 	return fieldsSet, body
+}
+
+// mentions reports whether the identifier name occurs in e.
+func mentions(e ast.Node, name string) bool {
+	found := false
+	ast.Inspect(e, func(n ast.Node) bool {
+		if id, ok := n.(*ast.Ident); ok && id.Name == name {
+			found = true
+		}
+		return !found
+	})
+	return found
 }
 
 // zeroValueText is the text of the zero value of a field type, as far as the
@@ -257,7 +281,23 @@ func readDefaults(name string, f *fnDecl, fields [][2]string) [][2]string {
 		t := unk(sf.stmtsOneLine(f.fd.Body.List))
 		return [][2]string{{t, t}}
 	}
+	return defaultsOf(sf, cl, fields)
+}
+
+// defaultsOf lists the value every field of `options` has in the literal the options start from
+// (omitted fields: their zero value; a value that names a package-level constant: the constant's
+// own value).
+func defaultsOf(sf *srcFile, cl *ast.CompositeLit, fields [][2]string) [][2]string {
 	given := keyValues(sf, cl)
+	for i, el := range cl.Elts {
+		if kv, ok := el.(*ast.KeyValueExpr); ok && i < len(given) {
+			if id, ok := kv.Value.(*ast.Ident); ok {
+				if v, ok := pkgLevelValue(sf, id.Name).(*ast.BasicLit); ok {
+					given[i][1] = v.Value
+				}
+			}
+		}
+	}
 	var out [][2]string
 	used := make([]bool, len(given))
 	for _, fld := range fields {
@@ -315,55 +355,114 @@ func keyValues(sf *srcFile, cl *ast.CompositeLit) [][2]string {
 // where the loop body may also be written `if o == nil { continue }; o(&opts)`.
 // defaultsFn is F, the function the options start from ("" if the first
 // statement is not `opts := F()`).
-func getOptsShape(f *fnDecl) (skipsNil bool, defaultsFn string) {
+func getOptsShape(f *fnDecl) (skipsNil bool, defaultsFn string, defaultsLit *ast.CompositeLit) {
 	if f == nil || f.fd.Body == nil || len(f.fd.Body.List) == 0 {
-		return false, ""
+		return false, "", nil
 	}
 	sf := f.sf
 	stmts := f.fd.Body.List
-	// opts := F()
+	// opts := F()   or   opts := options{...}
 	as, ok := stmts[0].(*ast.AssignStmt)
 	if !ok || as.Tok != token.DEFINE || len(as.Lhs) != 1 || len(as.Rhs) != 1 {
-		return false, ""
+		return false, "", nil
 	}
 	v, isID := as.Lhs[0].(*ast.Ident)
-	call, isCall := as.Rhs[0].(*ast.CallExpr)
-	if !isID || v.Name == "_" || !isCall || len(call.Args) != 0 {
-		return false, ""
+	if !isID || v.Name == "_" {
+		return false, "", nil
 	}
-	fn, isID := call.Fun.(*ast.Ident)
-	if !isID {
-		return false, ""
+	switch rhs := as.Rhs[0].(type) {
+	case *ast.CallExpr:
+		fn, isID := rhs.Fun.(*ast.Ident)
+		if !isID || len(rhs.Args) != 0 {
+			return false, "", nil
+		}
+		defaultsFn = fn.Name
+	case *ast.CompositeLit:
+		if !isIdent(rhs.Type, "options") {
+			return false, "", nil
+		}
+		defaultsLit = rhs
+	default:
+		return false, "", nil
 	}
-	defaultsFn = fn.Name
 	if len(stmts) != 3 {
-		return false, defaultsFn
+		return false, defaultsFn, defaultsLit
 	}
 	// for _, o := range opt { ... }
 	r, ok := stmts[1].(*ast.RangeStmt)
 	if !ok {
-		return false, defaultsFn
+		return false, defaultsFn, defaultsLit
 	}
 	o, ok := r.Value.(*ast.Ident)
 	if !ok || r.Tok != token.DEFINE || !isIdent(r.Key, "_") || o.Name == "_" || o.Name == v.Name {
-		return false, defaultsFn
+		return false, defaultsFn, defaultsLit
 	}
 	ps := paramNames(f.fd.Type)
 	if len(ps) != 1 || !isIdent(r.X, ps[0]) || ps[0] == o.Name || ps[0] == v.Name {
-		return false, defaultsFn
+		return false, defaultsFn, defaultsLit
 	}
 	body := sf.bodyToks(r.Body)
 	guarded := []string{"if", o.Name, "!=", "nil", "{", o.Name, "(", "&", v.Name, ")", "}"}
 	skipping := []string{"if", o.Name, "==", "nil", "{", "continue", "}", o.Name, "(", "&", v.Name, ")"}
 	if !sameStrings(body, guarded) && !sameStrings(body, skipping) {
-		return false, defaultsFn
+		return false, defaultsFn, defaultsLit
 	}
 	// return opts
-	return sameStrings(sf.toks(stmts[2]), []string{"return", v.Name}), defaultsFn
+	return sameStrings(sf.toks(stmts[2]), []string{"return", v.Name}), defaultsFn, defaultsLit
 }
 
-// createPlumbing lists the key/value pairs of the first `&Evaluator{...}` in
-// CreateEvaluator.
+// createNames finds the roles of the locals of CreateEvaluator:
+//
+//	cfg      `cfg := getOpts(<variadic parameter>...)`
+//	parsed   `parsed, err := grammar.Parse(...)`
+//	tree     `tree := parsed.(grammar.Expression)`        ("" when the assertion is used in place)
+//	expr     the first parameter (the expression string)
+type createNames struct {
+	cfg, parsed, errv, tree, expr string
+	parse                         *ast.CallExpr
+}
+
+func readCreateNames(f *fnDecl) createNames {
+	var n createNames
+	ps := paramNames(f.fd.Type)
+	if len(ps) != 2 {
+		return n
+	}
+	n.expr = ps[0]
+	ast.Inspect(f.fd.Body, func(nd ast.Node) bool {
+		as, ok := nd.(*ast.AssignStmt)
+		if !ok || as.Tok != token.DEFINE || len(as.Rhs) != 1 {
+			return true
+		}
+		switch rhs := as.Rhs[0].(type) {
+		case *ast.CallExpr:
+			if isIdent(rhs.Fun, "getOpts") && rhs.Ellipsis.IsValid() && len(rhs.Args) == 1 && isIdent(rhs.Args[0], ps[1]) && len(as.Lhs) == 1 {
+				if id, ok := as.Lhs[0].(*ast.Ident); ok && n.cfg == "" {
+					n.cfg = id.Name
+				}
+			}
+			if p, name, ok := pkgSel(rhs.Fun); ok && p == "grammar" && name == "Parse" && len(as.Lhs) == 2 && n.parse == nil {
+				a, ok1 := as.Lhs[0].(*ast.Ident)
+				b, ok2 := as.Lhs[1].(*ast.Ident)
+				if ok1 && ok2 {
+					n.parsed, n.errv, n.parse = a.Name, b.Name, rhs
+				}
+			}
+		case *ast.TypeAssertExpr:
+			if len(as.Lhs) == 1 && n.parsed != "" && isIdent(rhs.X, n.parsed) && rhs.Type != nil && sameStrings(f.sf.toks(rhs.Type), []string{"grammar", ".", "Expression"}) {
+				if id, ok := as.Lhs[0].(*ast.Ident); ok && n.tree == "" {
+					n.tree = id.Name
+				}
+			}
+		}
+		return true
+	})
+	return n
+}
+
+// createPlumbing lists the key/value pairs of the first `&Evaluator{...}` in CreateEvaluator, with
+// the locals replaced by their roles: `$opts.<field>` for a field of the folded options, `$tree` for
+// the parse result asserted to grammar.Expression, `$expression` for the expression parameter.
 func createPlumbing(f *fnDecl) [][2]string {
 	if f == nil || f.fd.Body == nil {
 		return [][2]string{{unk("func CreateEvaluator not found"), unk("missing")}}
@@ -378,45 +477,80 @@ func createPlumbing(f *fnDecl) [][2]string {
 	if len(lits) == 0 {
 		return [][2]string{{unk("no Evaluator{...} literal in CreateEvaluator"), unk("missing")}}
 	}
+	names := readCreateNames(f)
 	out := keyValues(f.sf, lits[0])
+	for i, el := range lits[0].Elts {
+		kv, ok := el.(*ast.KeyValueExpr)
+		if !ok || i >= len(out) {
+			continue
+		}
+		switch v := unparen(kv.Value).(type) {
+		case *ast.Ident:
+			switch {
+			case names.tree != "" && v.Name == names.tree:
+				out[i][1] = "$tree"
+			case names.expr != "" && v.Name == names.expr:
+				out[i][1] = "$expression"
+			}
+		case *ast.SelectorExpr:
+			if names.cfg != "" && isIdent(v.X, names.cfg) {
+				out[i][1] = "$opts." + v.Sel.Name
+			}
+		case *ast.TypeAssertExpr:
+			if names.parsed != "" && isIdent(v.X, names.parsed) && v.Type != nil && sameStrings(f.sf.toks(v.Type), []string{"grammar", ".", "Expression"}) {
+				out[i][1] = "$tree"
+			}
+		}
+	}
 	for _, extra := range lits[1:] {
 		out = append(out, [2]string{unk("further Evaluator literal"), unk(f.sf.oneLine(extra))})
 	}
 	return out
 }
 
-// createParse reads the parser plumbing of CreateEvaluator.
-func createParse(f *fnDecl) (forward, parseCall []string, errCheckFirst bool) {
+// maxExprOf recognises `grammar.MaxExpressions(<cfg>.withMaxExpressions)`.
+func maxExprOf(e ast.Expr, cfg string) bool {
+	c, ok := unparen(e).(*ast.CallExpr)
+	if !ok || len(c.Args) != 1 || c.Ellipsis.IsValid() {
+		return false
+	}
+	p, name, ok := pkgSel(c.Fun)
+	if !ok || p != "grammar" || name != "MaxExpressions" {
+		return false
+	}
+	s, ok := unparen(c.Args[0]).(*ast.SelectorExpr)
+	return ok && isIdent(s.X, cfg) && s.Sel.Name == "withMaxExpressions"
+}
+
+// budgetCond recognises `<cfg>.withMaxExpressions <op> 0`.
+func budgetCond(sf *srcFile, e ast.Expr, cfg, op string) bool {
+	return sameStrings(sf.toks(e), []string{cfg, ".", "withMaxExpressions", op, "0"})
+}
+
+// createParse reads the parser plumbing of CreateEvaluator.  forward is ["nonzero"] when the parser
+// options passed to grammar.Parse("", []byte(<expression>), X...) are exactly: nothing if the folded
+// budget is 0, grammar.MaxExpressions(budget) otherwise — built either in a local slice
+// (`if cfg.withMaxExpressions != 0 { X = append(X, grammar.MaxExpressions(cfg.withMaxExpressions)) }`)
+// or by a helper `H(cfg)` with that meaning.
+func createParse(f *fnDecl, pkg []*srcFile) (forward, parseCall []string, errCheckFirst bool) {
 	forward, parseCall = []string{}, []string{}
 	if f == nil || f.fd.Body == nil {
 		return []string{unk("func CreateEvaluator not found")}, []string{unk("func CreateEvaluator not found")}, false
 	}
 	sf := f.sf
-	var call *ast.CallExpr
+	names := readCreateNames(f)
+	var calls []*ast.CallExpr
 	var assert *ast.TypeAssertExpr
 	var errCheck ast.Stmt
-	nFwd := 0
 	ast.Inspect(f.fd.Body, func(n ast.Node) bool {
 		switch x := n.(type) {
 		case *ast.IfStmt:
-			if x.Init == nil && sameStrings(sf.toks(x.Cond), []string{"parsedOpts", ".", "withMaxExpressions", "!=", "0"}) {
-				if nFwd > 0 {
-					forward = append(forward, unk("second `if parsedOpts.withMaxExpressions != 0` statement"))
-				}
-				nFwd++
-				forward = append(forward, sf.toks(x)...)
-			}
-			if errCheck == nil && sameStrings(sf.toks(x), []string{"if", "err", "!=", "nil", "{", "return", "nil", ",", "err", "}"}) {
+			if errCheck == nil && names.errv != "" && sameStrings(sf.toks(x), []string{"if", names.errv, "!=", "nil", "{", "return", "nil", ",", names.errv, "}"}) {
 				errCheck = x
 			}
 		case *ast.CallExpr:
 			if p, name, ok := pkgSel(x.Fun); ok && p == "grammar" && name == "Parse" {
-				if call == nil {
-					call = x
-					parseCall = sf.toks(x)
-				} else {
-					parseCall = append(parseCall, unk("second grammar.Parse call: "+sf.oneLine(x)))
-				}
+				calls = append(calls, x)
 			}
 		case *ast.TypeAssertExpr:
 			if assert == nil && x.Type != nil && sameStrings(sf.toks(x.Type), []string{"grammar", ".", "Expression"}) {
@@ -425,14 +559,92 @@ func createParse(f *fnDecl) (forward, parseCall []string, errCheckFirst bool) {
 		}
 		return true
 	})
-	if call == nil {
-		parseCall = []string{unk("no grammar.Parse call in CreateEvaluator")}
+	if len(calls) != 1 || names.parse != calls[0] || names.cfg == "" {
+		return []string{unk("CreateEvaluator is not `cfg := getOpts(opts...)` + one `v, err := grammar.Parse(...)`")}, []string{unk("no single grammar.Parse call")}, false
 	}
-	// The error check must follow the Parse call and precede the first
-	// .(grammar.Expression) assertion; both must exist.
-	errCheckFirst = call != nil && assert != nil && errCheck != nil &&
-		call.End() <= errCheck.Pos() && errCheck.End() <= assert.Pos()
-	return forward, parseCall, errCheckFirst
+	call := calls[0]
+	parseCall = sf.toks(call)
+	errCheckFirst = assert != nil && errCheck != nil && call.End() <= errCheck.Pos() && errCheck.End() <= assert.Pos()
+	// grammar.Parse("", []byte(expression), X...)
+	if len(call.Args) != 3 || !call.Ellipsis.IsValid() || !sameStrings(sf.toks(call.Args[0]), []string{`""`}) ||
+		!sameStrings(sf.toks(call.Args[1]), []string{"[", "]", "byte", "(", names.expr, ")"}) {
+		return []string{unk("arguments of grammar.Parse: " + sf.oneLine(call))}, parseCall, errCheckFirst
+	}
+	switch x := unparen(call.Args[2]).(type) {
+	case *ast.Ident:
+		// a local slice: declared empty, appended to exactly once, under the non-zero test
+		declared, appended, other := 0, 0, 0
+		ast.Inspect(f.fd.Body, func(n ast.Node) bool {
+			switch st := n.(type) {
+			case *ast.DeclStmt:
+				if gd, ok := st.Decl.(*ast.GenDecl); ok && gd.Tok == token.VAR {
+					for _, sp := range gd.Specs {
+						if vs, ok := sp.(*ast.ValueSpec); ok && len(vs.Names) == 1 && vs.Names[0].Name == x.Name {
+							if len(vs.Values) == 0 && sameStrings(sf.toks(vs.Type), []string{"[", "]", "grammar", ".", "Option"}) {
+								declared++
+							} else {
+								other++
+							}
+						}
+					}
+				}
+			case *ast.IfStmt:
+				if st.Init == nil && st.Else == nil && budgetCond(sf, st.Cond, names.cfg, "!=") && len(st.Body.List) == 1 {
+					if as, ok := st.Body.List[0].(*ast.AssignStmt); ok && as.Tok == token.ASSIGN && len(as.Lhs) == 1 && len(as.Rhs) == 1 && isIdent(as.Lhs[0], x.Name) {
+						if c, ok := as.Rhs[0].(*ast.CallExpr); ok && isIdent(c.Fun, "append") && len(c.Args) == 2 && !c.Ellipsis.IsValid() && isIdent(c.Args[0], x.Name) && maxExprOf(c.Args[1], names.cfg) {
+							appended++
+							return false
+						}
+					}
+				}
+			case *ast.AssignStmt:
+				for _, l := range st.Lhs {
+					if isIdent(l, x.Name) {
+						other++
+					}
+				}
+			}
+			return true
+		})
+		if declared == 1 && appended == 1 && other == 0 {
+			return []string{"nonzero"}, parseCall, errCheckFirst
+		}
+		return []string{unk(fmt.Sprintf("parser options %s: %d declarations, %d guarded appends, %d other assignments", x.Name, declared, appended, other))}, parseCall, errCheckFirst
+	case *ast.CallExpr:
+		// a helper H(cfg)
+		h, ok := x.Fun.(*ast.Ident)
+		if !ok || len(x.Args) != 1 || x.Ellipsis.IsValid() || !isIdent(x.Args[0], names.cfg) {
+			break
+		}
+		hf := findFn(h.Name, pkg...)
+		if hf == nil || hf.fd.Recv != nil || hf.fd.Body == nil || len(hf.fd.Body.List) != 2 {
+			break
+		}
+		hp := paramNames(hf.fd.Type)
+		if len(hp) != 1 {
+			break
+		}
+		one := func(e ast.Expr) bool { // []grammar.Option{grammar.MaxExpressions(c.withMaxExpressions)}
+			cl, ok := unparen(e).(*ast.CompositeLit)
+			return ok && cl.Type != nil && sameStrings(hf.sf.toks(cl.Type), []string{"[", "]", "grammar", ".", "Option"}) && len(cl.Elts) == 1 && maxExprOf(cl.Elts[0], hp[0])
+		}
+		is, ok1 := hf.fd.Body.List[0].(*ast.IfStmt)
+		last, ok2 := hf.fd.Body.List[1].(*ast.ReturnStmt)
+		if !ok1 || !ok2 || is.Init != nil || is.Else != nil || len(last.Results) != 1 {
+			break
+		}
+		inner := singleReturn(is.Body.List, 1)
+		if inner == nil {
+			break
+		}
+		if budgetCond(hf.sf, is.Cond, hp[0], "==") && isIdent(inner.Results[0], "nil") && one(last.Results[0]) {
+			return []string{"nonzero"}, parseCall, errCheckFirst
+		}
+		if budgetCond(hf.sf, is.Cond, hp[0], "!=") && one(inner.Results[0]) && isIdent(last.Results[0], "nil") {
+			return []string{"nonzero"}, parseCall, errCheckFirst
+		}
+	}
+	return []string{unk("parser options of grammar.Parse: " + sf.oneLine(call.Args[2]))}, parseCall, errCheckFirst
 }
 
 // newParserZeroMeansMax: newParser has, among its top-level statements, exactly
